@@ -17,7 +17,7 @@ theorem Index.get_filter_ne (ix : Index) {k k' : String} (h : k' ≠ k) :
     simp only [List.filter_cons]
     by_cases hp : p.1 = k
     · have hb : (k == k') = false := by simpa using fun e => h e.symm
-      simp [hp, List.find?_cons, ih, hb]
+      simp [hp, ih, hb]
     · simp [hp, List.find?_cons, ih]
 
 @[simp] theorem Index.get_set_other (ix : Index) {k k' : String} (v) (h : k' ≠ k) :
@@ -32,5 +32,275 @@ theorem Index.get_filter_ne (ix : Index) {k k' : String} (h : k' ≠ k) :
 
 @[simp] theorem Index.get_del_other (ix : Index) {k k' : String} (h : k' ≠ k) :
     (ix.del k).get k' = ix.get k' := Index.get_filter_ne ix h
+
+/-! ### the key is injective on non-empty comma-free rules -/
+
+theorem ruleKey_injective {r₁ r₂ : Rule}
+    (h₁ : ∀ f ∈ r₁, commaFree f = true) (h₂ : ∀ f ∈ r₂, commaFree f = true)
+    (n₁ : r₁ ≠ []) (n₂ : r₂ ≠ []) (h : ruleKey r₁ = ruleKey r₂) : r₁ = r₂ := by
+  have hc := congrArg String.toList h
+  simp only [ruleKey, String.toList_intercalate] at hc
+  have hs : ",".toList = [','] := by decide
+  rw [hs] at hc
+  have e₁ := List.splitOn_intercalate (ls := r₁.map String.toList) ','
+    (by
+      intro l hl
+      simp only [List.mem_map] at hl
+      obtain ⟨f, hf, rfl⟩ := hl
+      have := h₁ f hf
+      simpa [commaFree] using this)
+    (by simpa using n₁)
+  have e₂ := List.splitOn_intercalate (ls := r₂.map String.toList) ','
+    (by
+      intro l hl
+      simp only [List.mem_map] at hl
+      obtain ⟨f, hf, rfl⟩ := hl
+      have := h₂ f hf
+      simpa [commaFree] using this)
+    (by simpa using n₂)
+  rw [hc, e₂] at e₁
+  exact ((List.map_inj_right (fun a b hab => String.toList_inj.1 hab)).1 e₁).symm
+
+theorem plain_key_inj {n : Nat} (hn : n ≠ 0) {a b : Rule} (ha : plainRule n a = true) (hb : plainRule n b = true)
+    (h : ruleKey a = ruleKey b) : a = b := by
+  simp only [plainRule, Bool.and_eq_true, beq_iff_eq, List.all_eq_true] at ha hb
+  refine ruleKey_injective ha.2 hb.2 ?_ ?_ h
+  · intro e; rw [e] at ha; simp at ha; omega
+  · intro e; rw [e] at hb; simp at hb; omega
+
+
+/-! ### index laws, coherence -/
+
+theorem Index.get_set (ix : Index) (k : String) (v : Nat) (k' : String) :
+    (ix.set k v).get k' = if k' = k then some v else ix.get k' := by
+  split
+  · subst_vars; simp
+  · rename_i h; simp [h]
+
+theorem Index.get_del (ix : Index) (k k' : String) :
+    (ix.del k).get k' = if k' = k then none else ix.get k' := by
+  split
+  · subst_vars; simp
+  · rename_i h; simp [h]
+
+theorem Coh.get_iff {n : Nat} (hn : n ≠ 0) {s : Store} (h : Coh s)
+    (hl : ∀ q ∈ s.policy, plainRule n q = true) {r : Rule} (hr : plainRule n r = true) (i : Nat) :
+    s.index.get (ruleKey r) = some i ↔ s.policy[i]? = some r := by
+  constructor
+  · intro hg
+    obtain ⟨q, hq, hk⟩ := h.2.2 _ _ hg
+    have := plain_key_inj hn (hl q (List.mem_of_getElem? hq)) hr hk
+    rw [← this]; exact hq
+  · exact h.2.1 r i
+
+theorem Coh.has_iff {n : Nat} (hn : n ≠ 0) {s : Store} (h : Coh s)
+    (hl : ∀ q ∈ s.policy, plainRule n q = true) {r : Rule} (hr : plainRule n r = true) :
+    s.has r = true ↔ r ∈ s.policy := by
+  simp only [Store.has, Option.isSome_iff_exists, Coh.get_iff hn h hl hr, List.mem_iff_getElem?]
+
+theorem Coh.get_none_iff {n : Nat} (hn : n ≠ 0) {s : Store} (h : Coh s)
+    (hl : ∀ q ∈ s.policy, plainRule n q = true) {r : Rule} (hr : plainRule n r = true) :
+    s.index.get (ruleKey r) = none ↔ r ∉ s.policy := by
+  rw [← Coh.has_iff hn h hl hr, Store.has]
+  cases s.index.get (ruleKey r) <;> simp
+
+theorem coh_append {n : Nat} (hn : n ≠ 0) {s : Store} (h : Coh s)
+    (hl : ∀ q ∈ s.policy, plainRule n q = true) {r : Rule} (hr : plainRule n r = true)
+    (hnew : r ∉ s.policy) :
+    Coh ⟨s.policy ++ [r], s.index.set (ruleKey r) s.policy.length⟩ := by
+  obtain ⟨hnd, h1, h2⟩ := h
+  refine ⟨?_, ?_, ?_⟩
+  · simp only
+    rw [List.nodup_append]
+    simp [hnd]
+    grind
+  · intro q i hq
+    simp only at hq ⊢
+    rw [Index.get_set]
+    rw [List.getElem?_append] at hq
+    split at hq
+    · have hqm := List.mem_of_getElem? hq
+      have : ruleKey q ≠ ruleKey r := fun e => hnew (plain_key_inj hn (hl q hqm) hr e ▸ hqm)
+      simp [this, h1 q i hq]
+    · have : i = s.policy.length ∧ q = r := by
+        rcases hi : i - s.policy.length with _ | m
+        · simp [hi] at hq; exact ⟨by omega, hq.symm⟩
+        · simp [hi] at hq
+      simp [this.1, this.2]
+  · intro k i hg
+    simp only at hg ⊢
+    rw [Index.get_set] at hg
+    split at hg
+    · simp at hg; subst hg; subst_vars; exact ⟨r, by simp, rfl⟩
+    · obtain ⟨q, hq, hk⟩ := h2 k i hg
+      refine ⟨q, ?_, hk⟩
+      rw [List.getElem?_append_left]; exact hq
+      exact (List.getElem?_eq_some_iff.1 hq).1
+
+
+theorem nodup_iff_getElem? {α} {l : List α} :
+    l.Nodup ↔ ∀ (i j : Nat) (a : α), l[i]? = some a → l[j]? = some a → i = j := by
+  rw [List.Nodup, List.pairwise_iff_getElem]
+  constructor
+  · intro h i j a hi hj
+    obtain ⟨hi', rfl⟩ := List.getElem?_eq_some_iff.1 hi
+    obtain ⟨hj', hj⟩ := List.getElem?_eq_some_iff.1 hj
+    rcases Nat.lt_trichotomy i j with hlt | heq | hgt
+    · exact absurd hj.symm (h i j hi' hj' hlt)
+    · exact heq
+    · exact absurd hj (h j i hj' hi' hgt)
+  · intro h i j hi hj hij e
+    have := h i j l[i] (List.getElem?_eq_getElem hi) (by rw [e]; exact List.getElem?_eq_getElem hj)
+    omega
+
+theorem nodup_set {α} {l : List α} (hnd : l.Nodup) {i : Nat} {b : α} (hb : b ∉ l) : (l.set i b).Nodup := by
+  rw [nodup_iff_getElem?] at hnd ⊢
+  intro j k a hj hk
+  rw [List.getElem?_set] at hj hk
+  grind
+
+
+theorem coh_set {n : Nat} (hn : n ≠ 0) {s : Store} (h : Coh s)
+    (hl : ∀ q ∈ s.policy, plainRule n q = true) {a b : Rule} (hb : plainRule n b = true)
+    {i : Nat} (hi : s.policy[i]? = some a) (hnew : b ∉ s.policy) :
+    Coh ⟨s.policy.set i b, (s.index.del (ruleKey a)).set (ruleKey b) i⟩ := by
+  obtain ⟨hnd, h1, h2⟩ := h
+  have hilt : i < s.policy.length := (List.getElem?_eq_some_iff.1 hi).1
+  have ham : a ∈ s.policy := List.mem_of_getElem? hi
+  have hab : ruleKey b ≠ ruleKey a := fun e => hnew (plain_key_inj hn hb (hl a ham) e ▸ ham)
+  refine ⟨nodup_set hnd hnew, ?_, ?_⟩
+  · intro q j hq
+    simp only at hq ⊢
+    rw [List.getElem?_set] at hq
+    rw [Index.get_set]
+    split at hq
+    · subst_vars; simp at hq; subst hq; simp
+    · have hqm := List.mem_of_getElem? hq
+      have hqb : ruleKey q ≠ ruleKey b := fun e => hnew (plain_key_inj hn (hl q hqm) hb e ▸ hqm)
+      have hqa : ruleKey q ≠ ruleKey a := by
+        intro e
+        have := plain_key_inj hn (hl q hqm) (hl a ham) e
+        subst this
+        exact absurd ((nodup_iff_getElem?.1 hnd) _ _ _ hi hq) (by assumption)
+      rw [if_neg hqb, Index.get_del, if_neg hqa]
+      exact h1 q j hq
+  · intro k j hg
+    simp only at hg ⊢
+    rw [Index.get_set] at hg
+    split at hg
+    · simp at hg; subst hg; subst_vars
+      exact ⟨b, by simp [hilt], rfl⟩
+    · rw [Index.get_del] at hg
+      split at hg
+      · simp at hg
+      · obtain ⟨q, hq, hk⟩ := h2 k j hg
+        refine ⟨q, ?_, hk⟩
+        rw [List.getElem?_set]
+        have : i ≠ j := by
+          intro e; subst e; rw [hi] at hq; simp at hq; subst hq; subst hk; contradiction
+        simp [this, hq]
+
+theorem reindex_get_of_not_mem (ix : Index) (suf : List Rule) (j : Nat) (k : String)
+    (hk : ∀ q ∈ suf, ruleKey q ≠ k) : (Store.reindex ix suf j).get k = ix.get k := by
+  induction suf generalizing ix j with
+  | nil => rfl
+  | cons r rs ih =>
+    simp only [Store.reindex]
+    rw [ih _ _ (fun q hq => hk q (List.mem_cons_of_mem _ hq)), Index.get_set,
+      if_neg (fun e => hk r List.mem_cons_self e.symm)]
+
+theorem reindex_get_of_mem (ix : Index) (suf : List Rule) (j : Nat)
+    (hinj : ∀ (m m' : Nat) (q q' : Rule), suf[m]? = some q → suf[m']? = some q' → ruleKey q = ruleKey q' → m = m')
+    {m : Nat} {q : Rule} (hq : suf[m]? = some q) :
+    (Store.reindex ix suf j).get (ruleKey q) = some (j + m) := by
+  induction suf generalizing ix j m with
+  | nil => simp at hq
+  | cons r rs ih =>
+    simp only [Store.reindex]
+    cases m with
+    | zero =>
+      simp at hq; subst hq
+      rw [reindex_get_of_not_mem]
+      · simp
+      · intro q' hq' e
+        obtain ⟨m', hm'⟩ := List.mem_iff_getElem?.1 hq'
+        have := hinj (m' + 1) 0 q' r (by simpa using hm') (by simp) e
+        omega
+    | succ m =>
+      have := ih (ix.set (ruleKey r) j) (j + 1)
+        (fun a b x y hx hy e => by
+          have := hinj (a + 1) (b + 1) x y (by simpa using hx) (by simpa using hy) e
+          omega) (m := m) (by simpa using hq)
+      rw [this]; congr 1; omega
+
+/-- distinct slots of a coherent plain store carry distinct keys -/
+theorem Coh.slot_inj {n : Nat} (hn : n ≠ 0) {s : Store} (h : Coh s)
+    (hl : ∀ q ∈ s.policy, plainRule n q = true) {i j : Nat} {q q' : Rule}
+    (hi : s.policy[i]? = some q) (hj : s.policy[j]? = some q') (e : ruleKey q = ruleKey q') : i = j := by
+  have := plain_key_inj hn (hl q (List.mem_of_getElem? hi)) (hl q' (List.mem_of_getElem? hj)) e
+  subst this
+  exact nodup_iff_getElem?.1 h.1 _ _ _ hi hj
+
+theorem coh_remove {n : Nat} (hn : n ≠ 0) {s : Store} (h : Coh s)
+    (hl : ∀ q ∈ s.policy, plainRule n q = true) {r : Rule} {i : Nat} (hi : s.policy[i]? = some r) :
+    Coh ⟨s.policy.eraseIdx i, Store.reindex (s.index.del (ruleKey r)) (s.policy.drop (i + 1)) i⟩ := by
+  have hslot := @Coh.slot_inj n hn s h hl
+  obtain ⟨hnd, h1, h2⟩ := h
+  have hsufinj : ∀ (m m' : Nat) (q q' : Rule), (s.policy.drop (i + 1))[m]? = some q →
+      (s.policy.drop (i + 1))[m']? = some q' → ruleKey q = ruleKey q' → m = m' := by
+    intro m m' q q' hq hq' e
+    rw [List.getElem?_drop] at hq hq'
+    have := hslot hq hq' e
+    omega
+  refine ⟨hnd.eraseIdx i, ?_, ?_⟩
+  · intro q j hq
+    simp only at hq ⊢
+    rw [List.getElem?_eraseIdx] at hq
+    split at hq
+    · rw [reindex_get_of_not_mem]
+      · rw [Index.get_del, if_neg]
+        · exact h1 q j hq
+        · intro e; have := hslot hq hi e; omega
+      · intro q' hq' e
+        obtain ⟨m, hm⟩ := List.mem_iff_getElem?.1 hq'
+        rw [List.getElem?_drop] at hm
+        have := hslot hm hq e; omega
+    · have hq' : (s.policy.drop (i + 1))[j - i]? = some q := by
+        rw [List.getElem?_drop]; rw [← hq]; congr 1; omega
+      rw [reindex_get_of_mem _ _ _ hsufinj hq']
+      congr 1; omega
+  · intro k j hg
+    simp only at hg ⊢
+    by_cases hk : ∃ q ∈ s.policy.drop (i + 1), ruleKey q = k
+    · obtain ⟨q, hqm, rfl⟩ := hk
+      obtain ⟨m, hm⟩ := List.mem_iff_getElem?.1 hqm
+      rw [reindex_get_of_mem _ _ _ hsufinj hm] at hg
+      simp at hg; subst hg
+      refine ⟨q, ?_, rfl⟩
+      rw [List.getElem?_eraseIdx, if_neg (by omega)]
+      rw [List.getElem?_drop] at hm
+      rw [← hm]; congr 1; omega
+    · rw [reindex_get_of_not_mem _ _ _ _ (fun q hq e => hk ⟨q, hq, e⟩), Index.get_del] at hg
+      split at hg
+      · simp at hg
+      · rename_i hkr
+        obtain ⟨q, hq, hqk⟩ := h2 k j hg
+        refine ⟨q, ?_, hqk⟩
+        rw [List.getElem?_eraseIdx]
+        have hji : j ≠ i := by
+          intro e; subst e; rw [hi] at hq; simp at hq; subst hq; exact hkr hqk.symm
+        have : ¬ i < j := by
+          intro hlt
+          apply hk
+          refine ⟨q, ?_, hqk⟩
+          apply List.mem_iff_getElem?.2
+          refine ⟨j - (i + 1), ?_⟩
+          rw [List.getElem?_drop, ← hq]; congr 1; omega
+        rw [if_pos (by omega)]; exact hq
+
+theorem erase_eq_eraseIdx_of_getElem? {l : List Rule} (hnd : l.Nodup) {i : Nat} {r : Rule}
+    (hi : l[i]? = some r) : l.erase r = l.eraseIdx i := by
+  obtain ⟨hlt, rfl⟩ := List.getElem?_eq_some_iff.1 hi
+  exact List.erase_eq_eraseIdx_of_idxOf (hnd.idxOf_getElem i hlt)
 
 end Casbin
